@@ -115,6 +115,9 @@ func GenModule(t *rapid.T, o GenOpts) *Module {
 	g.mod.Top = g.children(n, 0, true)
 	if o.Augments {
 		GenLayout(t, g.mod)
+		if n := len(g.mod.Identities); n > 0 && rapid.IntRange(0, 2).Draw(t, "submodule?") == 0 {
+			g.mod.SubIdents = rapid.IntRange(1, n).Draw(t, "sub-identities")
+		}
 	}
 	return g.mod
 }
